@@ -36,6 +36,9 @@ var (
 	errMalformedEncoding = errors.New("malformed chunk encoding")
 )
 
+// largest chunk the reader is willing to buffer (S3's maximum part size)
+const maxUnsignedChunkSize = 5 * 1024 * 1024 * 1024
+
 type UnsignedChunkReader struct {
 	reader           *bufio.Reader
 	checksumType     checksumType
@@ -92,6 +95,9 @@ func (ucr *UnsignedChunkReader) Read(p []byte) (int, error) {
 		// Read and cache the payload
 		_, err = io.ReadFull(rdr, payload)
 		if err != nil {
+			if err == io.EOF {
+				err = io.ErrUnexpectedEOF
+			}
 			return 0, err
 		}
 
@@ -150,7 +156,7 @@ func (ucr *UnsignedChunkReader) extractChunkSize() (int64, error) {
 	line = strings.TrimSpace(line)
 
 	chunkSize, err := strconv.ParseInt(line, 16, 64)
-	if err != nil {
+	if err != nil || chunkSize < 0 || chunkSize > maxUnsignedChunkSize {
 		return 0, errMalformedEncoding
 	}
 
